@@ -181,8 +181,8 @@ PIPE_NOTE = ("Under contract from the pipeline (each per piece / per row / per f
 
 PROPS["C01"] = {
     "level": "other",
-    "technique": "deductive verification of the local lemmas that carry conservation (lookup returns source rows, trims produce sub-intervals, the cut QC is a sound gate, cut_fragments' pieces add up) + bounded base-by-base conservation oracle over PretextView-model and perturbed maps",
-    "level_text": "Proved: find_overlaps returns a window of the input scaffold's own row objects; discard/trim operations keep rows a sub-run of that window; trim_fragment returns a sub-interval of the trimmed contig under its name; qc_sub_fragments returns normally only if the pieces, sorted, abut pairwise, start at the contig's start and end at its end (exact partition) and otherwise raises; cut_fragments makes one such piece per overlap result, all sub-intervals, lengths adding up to the contig. Bounded: the composition over the whole run (every base of every input contig in exactly one output fragment across all output assemblies; errors instead of silent loss for perturbed maps).",
+    "technique": "deductive verification of the steps that carry conservation (lookup returns source rows, trims produce sub-intervals, the cut QC is a sound gate, cut_fragments' pieces add up, bookkeeping of placed contigs, premises, left-over contigs kept) + bounded base-by-base conservation oracle over PretextView-model and perturbed maps, down to the files the CLI writes",
+    "level_text": "Proved: find_overlaps returns a window of the input scaffold's own row objects; discard/trim operations keep rows a sub-run of that window; trim_fragment returns a sub-interval of the trimmed contig under its name; qc_sub_fragments returns normally only if the pieces, sorted, abut pairwise, start at the contig's start and end at its end (exact partition) and otherwise raises; cut_fragments makes one such piece per overlap result, all sub-intervals, lengths adding up to the contig, the first piece (in contig order) keeping the contig's start and the last its end on either strand; store_fragments_found records every contig row of a placed piece under its (name, start, end), a second sighting marking it as found more than once, and lists the piece as a holder; add_overhang_premise makes exactly one what-if per holder that has the shared contig at an end (start premise for the first row, end premise for the last) and none for a holder that has it in the middle; the premises' bait overlap, what-if overhang, its change and `improves` equal interval arithmetic; add_missing_scaffolds_from_input keeps every contig the map did not place, whole and in order, in a left-over scaffold. Bounded: the composition over the whole run (every base of every input contig in exactly one output fragment across all output assemblies; errors instead of silent loss for perturbed maps).",
     "level_note": PIPE_NOTE,
     "lemmas": [],
     "bounded": [("bounded.c01", {})],
@@ -193,8 +193,8 @@ PROPS["C01"] = {
 PROPS["C02"] = {
     "level": "other",
     "technique": "deductive verification of the local arithmetic of the layout heuristics (error length, large-overhang rule, cut-to-bait in trim_fragment for both strands, orientation of to_scaffold) + bounded layout oracle on PretextView-model edit scripts",
-    "level_text": "Proved: error_length == 1 + floor(bp per texel); trim_large_overhangs discards the first row iff its overhang exceeds the error length and its overlap with the bait is shorter than the error length (unless it is the only row of a bait longer than the error length), and the last row only if its overhang exceeds it; trim_fragment cuts a terminal contig exactly to the bait boundary in scaffold coordinates for either strand (start == bait.start / end == bait.end whenever it cuts) and leaves a sub-interval; fragment_start_if_trimmed is the start such a cut would give; to_scaffold reverses iff the bait is on the minus strand. Bounded: that every PretextView-model script completes and the interior of each piece ends up as one collinear run (the statement's main clause), incl. cuts inside reverse-strand contigs (defect fixed in 54286d9, regression R-C02).",
-    "level_note": PIPE_NOTE + " cut_fragments' choice of keep flags per strand (the site of the repaired defect) is covered by the bounded tier; its contract here is the conservation one (C01).",
+    "level_text": "Proved: error_length == 1 + floor(bp per texel); trim_large_overhangs discards the first row iff its overhang exceeds the error length and its overlap with the bait is shorter than the error length (unless it is the only row of a bait longer than the error length), and the last row by the same rule applied to what is left (iff); cut_fragments hands trim_fragment the keep flags so that, in contig order, the first piece keeps the contig's start and the last its end on either strand (the site of the repaired defect 54286d9); `improves` (remove a shared terminal contig only if more than one row is left, the absolute overhang shrinks and no overhang beyond -3 error lengths results) equals interval arithmetic; trim_fragment cuts a terminal contig exactly to the bait boundary in scaffold coordinates for either strand (start == bait.start / end == bait.end whenever it cuts) and leaves a sub-interval; fragment_start_if_trimmed is the start such a cut would give; to_scaffold reverses iff the bait is on the minus strand. Bounded: that every PretextView-model script completes and the interior of each piece ends up as one collinear run (the statement's main clause), incl. cuts inside reverse-strand contigs (defect fixed in 54286d9, regression R-C02).",
+    "level_note": PIPE_NOTE,
     "lemmas": [],
     "bounded": [("bounded.c02", {})],
     "trusted": PIPE_TRUSTED + ["bp_per_texel is read as the real number the header literal denotes (no IEEE rounding)"],
@@ -214,7 +214,7 @@ PROPS["C07"] = {
 }
 PROPS["C08"] = {
     "level": "other",
-    "technique": "lemma over the proved contracts of find_overlaps and trim_large_overhangs (an unedited scaffold is found whole and nothing is trimmed) + bounded null-map oracle",
+    "technique": "lemma over the proved contracts of find_overlaps and trim_large_overhangs (an unedited scaffold is found whole and nothing is trimmed), per-row contract of add_missing_scaffolds_from_input (left-over pieces keep name and input gaps) + bounded null-map oracle",
     "level_text": "Proved (lemma over contracts, real arithmetic on the texel size): for a bait [1, E] with |E - T| < bp per texel on a scaffold of length T whose first and last rows are contigs and whose last contig is at least one texel long, the lookup returns all rows with span [1, T] and the large-overhang rule (error length 1 + floor(bpt)) discards nothing. Bounded: that nothing else in the pipeline changes names, order, gaps or statistics for a null map, and the painted variant.",
     "level_note": PIPE_NOTE,
     "lemmas": ["c08_unedited_scaffold_is_found_whole"],
